@@ -1,9 +1,11 @@
 package absint
 
 import (
+	"fmt"
 	"go/ast"
 	"go/token"
 	"go/types"
+	"math/big"
 	"strings"
 )
 
@@ -39,6 +41,39 @@ func (in *Interp) expr(e ast.Expr) Value {
 		if sel, ok := info.Selections[x]; ok && sel.Kind() == types.MethodExpr {
 			if fn, ok := sel.Obj().(*types.Func); ok {
 				return &FuncVal{MethodExpr: fn}
+			}
+		}
+		// table[i].field with a symbolic i: read the element through the multiplexer, then select
+		if sel, ok := info.Selections[x]; ok && sel.Kind() == types.FieldVal {
+			if ix, ok := unparen(x.X).(*ast.IndexExpr); ok {
+				if _, isMap := info.TypeOf(ix.X).Underlying().(*types.Map); !isMap {
+					if iv, ok := in.expr(ix.Index).(*Bits); ok {
+						if _, isConst := in.constLive(iv); !isConst {
+							v := in.index(ix)
+							T := info.TypeOf(ix)
+							for _, fi := range sel.Index() {
+								if p, isP := v.(*Ptr); isP {
+									v = p.To.V
+								}
+								if pt, isP := T.Underlying().(*types.Pointer); isP {
+									T = pt.Elem()
+								}
+								st, okS := T.Underlying().(*types.Struct)
+								sv, okV := v.(*Struct)
+								if !okS || !okV {
+									in.fail(x, "field of %T", v)
+								}
+								f := st.Field(fi)
+								c := sv.F[f.Name()]
+								if c == nil {
+									in.fail(x, "field %s missing", f.Name())
+								}
+								v, T = c.V, f.Type()
+							}
+							return v
+						}
+					}
+				}
 			}
 		}
 		return in.lvalue(x).V
@@ -370,8 +405,22 @@ func (in *Interp) index(x *ast.IndexExpr) Value {
 	}
 	// symbolic index over a small table: multiplexer (requires the index to be provably in range)
 	lo, hi := in.D.Range(idx.Bits(), idx.Signed)
-	if lo.Sign() < 0 || hi.Int64() >= int64(n) || n > 256 {
+	if n > 256 {
 		in.fail(x, "symbolic index with range [%s,%s] into %d elements", lo, hi, n)
+	}
+	if lo.Sign() < 0 || !hi.IsInt64() || hi.Int64() >= int64(n) {
+		// out of range on some executing path: a run-time panic there
+		oor := in.D.M.Or(in.D.Cmp(token.LSS, idx, in.D.Const(0, idx.W, idx.Signed)), in.D.M.Not(in.D.Cmp(token.LSS, idx, in.D.Const(int64(n), idx.W, idx.Signed))))
+		if !idx.Signed {
+			oor = in.D.M.Not(in.D.Cmp(token.LSS, idx, in.D.Const(int64(n), idx.W, false)))
+		}
+		if w := in.D.M.And(in.live, oor); w != False {
+			panic(Panic{Why: fmt.Sprintf("%s: index out of range [0,%d) for some values", in.pos(x), n), Cond: w})
+		}
+		if n == 0 {
+			in.fail(x, "index into an empty table on a dead path")
+		}
+		lo, hi = big.NewInt(0), big.NewInt(int64(n-1))
 	}
 	var res Value
 	for k := int(hi.Int64()); k >= int(lo.Int64()); k-- {
@@ -707,12 +756,42 @@ func (in *Interp) call(x *ast.CallExpr) Value {
 			} else {
 				recvVal = in.expr(sel.X)
 			}
-			if len(s.Index()) > 1 {
-				in.fail(x, "promoted method through embedding")
-			}
 			if recvCell != nil {
 				if p, ok := recvCell.V.(*Ptr); ok {
 					recvCell = p.To
+				}
+			}
+			if len(s.Index()) > 1 {
+				// promoted method: walk the embedded fields to the value that declares it
+				if recvCell == nil {
+					recvCell = &Cell{V: recvVal}
+					if p, ok := recvVal.(*Ptr); ok {
+						recvCell = p.To
+					}
+					recvVal = nil
+				}
+				T := info.TypeOf(sel.X)
+				for _, fi := range s.Index()[:len(s.Index())-1] {
+					if pt, isP := T.Underlying().(*types.Pointer); isP {
+						T = pt.Elem()
+					}
+					st, okS := T.Underlying().(*types.Struct)
+					sv, okV := recvCell.V.(*Struct)
+					if !okS || !okV {
+						in.fail(x, "promoted method through a %T", recvCell.V)
+					}
+					f := st.Field(fi)
+					recvCell = sv.F[f.Name()]
+					if recvCell == nil {
+						in.fail(x, "embedded field %s missing", f.Name())
+					}
+					T = f.Type()
+					if p, ok := recvCell.V.(*Ptr); ok {
+						recvCell = p.To
+						if pt, isP := T.Underlying().(*types.Pointer); isP {
+							T = pt.Elem()
+						}
+					}
 				}
 			}
 			return single(in.callFunc(fn, recvCell, recvVal, in.argsPacked(x, fn.Type().(*types.Signature))))
